@@ -324,6 +324,7 @@ int jv_prim(int op, void* out, const void* a, const void* b) {
     case JV_PR_BI384_ADD: return static_cast<B384*>(out)->add(*static_cast<const B384*>(a), *static_cast<const B384*>(b)) ? 1 : 0;
     case JV_PR_BI384_SUB: return static_cast<B384*>(out)->subtract(*static_cast<const B384*>(a), *static_cast<const B384*>(b)) ? 1 : 0;
     case JV_PR_BI384_SHL1: return static_cast<B384*>(out)->shift_left_in_word<1>(*static_cast<const B384*>(a)) != 0 ? 1 : 0;
+    case JV_PR_BI384_SHL3: { B384 t; t.copy(*static_cast<const B384*>(a)); t.shift_left_in_word<1>(t); t.shift_left_in_word<1>(t); t.shift_left_in_word<1>(t); static_cast<B384*>(out)->copy(t); return 0; }
     case JV_PR_BI768_MUL: static_cast<B768*>(out)->multiply(*static_cast<const B384*>(a), *static_cast<const B384*>(b)); return 0;
     case JV_PR_BI768_SQR: static_cast<B768*>(out)->square(*static_cast<const B384*>(a)); return 0;
     case JV_PR_FP384_ADD: static_cast<F384*>(out)->add(*static_cast<const F384*>(a), *static_cast<const F384*>(b), q); return 0;
